@@ -4,7 +4,8 @@ Generator : the multi-variable query generator of C02 with the templates the pro
             (conjunction whose right side is a different-variable disjunction, conjunction of two such disjunctions,
             >=2 left bindings re-entering the same right side), plus negation.  Each case builds the query TWICE from
             the AST (fresh variables each time): twin A is evaluated with caching enabled, twin B with caching disabled,
-            each twice in a row, optionally after an evaluation that was abandoned after k results.
+            each twice in a row, optionally after an evaluation that was abandoned after k results; a third build is evaluated
+            four times while the configuration is switched off/on/off/on.
 Oracle    : set(A1)==set(B1), set(A2)==set(B2) (multisets when all query variables are selected); 3-way with the
             Python-semantics reference.  A wrapper around IndexedCache.retrieve counts cache retrievals that returned
             >= 1 entry during run A (non-vacuity).
@@ -115,6 +116,23 @@ def check(case) -> Outcome:
         except Exception as e:
             return fail("exception_cached", f"{type(e).__name__}: {e}; uncached gave {b1}", classes=classes,
                         features=feats)
+    # ---- one and the same query object evaluated while the configuration is switched (off -> on -> off -> on)
+    try:
+        from entity_query_language.cache_data import enable_caching, disable_caching
+        built = build_query(case, objs)
+        switched = []
+        for caching in (False, True, False, True):
+            (enable_caching if caching else disable_caching)()
+            switched.append((caching, rows_of(built, list(built.q.evaluate()))))
+    except Exception as e:
+        return fail("exception_switching", f"{type(e).__name__}: {e}", classes=classes, features=feats)
+    finally:
+        enable_caching()
+    for i, (caching, rows) in enumerate(switched):
+        bad = compare_sets(b1, rows, multiset)
+        if bad:
+            return fail("switch_" + bad[0], f"same query object, evaluation {i + 1} of (off, on, off, on) with caching "
+                                            f"{'on' if caching else 'off'}: {bad[1]}", classes=classes, features=feats)
     hits = hc.hits
     nontrivial = hits > 0 and n_sat > 0
     if hits:
